@@ -55,7 +55,9 @@ def plan(tier, seed):
 
 def finalize(agg, tier):
     r = []
-    for c in ("enc_dec_agree_checked", "ref_kek_compared", "key_info_compared", "entropy_draws_forced"):
+    if agg.counter("entropy_draws_forced") + agg.counter("entropy_not_steerable") == 0:
+        r.append("monitor never reached: new_kek entropy observation")
+    for c in ("enc_dec_agree_checked", "ref_kek_compared", "key_info_compared"):
         if agg.counter(c) == 0:
             r.append(f"monitor never reached: {c}")
     for alg in ("nonce", "DH", "ECDH_P256", "ECDH_P384"):
@@ -159,10 +161,18 @@ def one_case(rec: Recorder, rng, idx: int) -> None:
             except Exception as e:
                 rec.violation("new-kek-exception", f"{type(e).__name__}: {e}", wit)
                 return
-        rec.count("entropy_draws_forced", ent.draws)
-        if ent.draws != 1 or kid.key_info != nonce:
-            rec.violation("nonce-not-from-entropy", f"draws={ent.draws}, key_info != forced nonce", wit)
-            return
+        if ent.draws == 1 and kid.key_info == nonce:
+            rec.count("entropy_draws_forced", ent.draws)
+        else:
+            # the implementation obtained its nonce some other way than one os.urandom(32) draw: that is its right (C19
+            # judges the quality of the source); the chosen nonce classes are then not steered, but whatever nonce it
+            # did emit must still give the same KEK on both sides and in the reference
+            rec.count("entropy_not_steerable")
+            nonce = kid.key_info
+            wit["nonce"] = nonce
+            if len(nonce) != 32:
+                rec.violation("nonce-length", f"emitted nonce of {len(nonce)} bytes, MS-GKDI / the decrypting side use 32", wit)
+                return
         want = crypto.kek_nonce(h, seed, nonce)
         nontrivial = mode != 0 or h != "SHA512"
         secret_alg = "DH"
@@ -265,10 +275,36 @@ def one_case(rec: Recorder, rng, idx: int) -> None:
             except Exception as e:
                 rec.violation("new-kek-exception", f"{alg}: {type(e).__name__}: {e}", wit)
                 return
-        rec.count("entropy_draws_forced", ent.draws)
-        if ent.draws != 1 or ent.log[0][0] != nbytes:
-            rec.violation("ephemeral-not-from-entropy", f"draws={[(n) for n, _ in ent.log]} expected one draw of {nbytes}", wit)
-            return
+        steered = ent.draws == 1 and ent.log[0][0] == nbytes
+        if steered:
+            rec.count("entropy_draws_forced", ent.draws)
+        else:
+            # ephemeral key generated some other way (e.g. by the crypto backend or the secrets module): the forced key
+            # does not apply.  Recompute the reference from the DC's side instead: the emitted public value and the
+            # private key derived from the seed give the same shared secret.
+            rec.count("entropy_not_steerable")
+            try:
+                if alg == "DH":
+                    kl2, p2, g2, pub_int = rg.dec_ffc_dh_key(kid.key_info)
+                    if (kl2, p2, g2) != (kl, p, g):
+                        raise ValueError("group parameters in the emitted key differ from the group's")
+                    z_int = pow(pub_int, priv_s, p)
+                    want_info = rg.enc_ffc_dh_key(kl, p, g, pub_int)
+                    want = crypto.kek_from_secret(h, z_int.to_bytes(kl, "big"), "sha256")
+                    if lz(z_int, kl):
+                        rec.count("leading_zero_shared_secret_unsteered")
+                else:
+                    cn2, ks2, px, py = rg.dec_ecdh_key(kid.key_info)
+                    if cn2 != cname or not c.on_curve(px, py):
+                        raise ValueError("emitted point is not on the root key's curve")
+                    zpt = c.mul(priv_s, px, py)
+                    want_info = rg.enc_ecdh_key(cname, c.size, px, py)
+                    want = crypto.kek_from_secret(h, zpt[0].to_bytes(c.size, "big"), crypto.CURVE_HASH[cname])
+                    if lz(zpt[0], c.size):
+                        rec.count("leading_zero_shared_secret_unsteered")
+            except Exception as e:
+                rec.violation("key-info-encoding", f"{alg}: emitted public value structure cannot be used by the decrypting side: {type(e).__name__}: {e}", dict(wit, got=kid.key_info))
+                return
         rec.count("key_info_compared")
         if kid.key_info != want_info:
             rec.violation("key-info-encoding", f"{alg}: emitted public value structure differs from the reference encoding", dict(wit, got=kid.key_info, want=want_info))
@@ -279,10 +315,11 @@ def one_case(rec: Recorder, rng, idx: int) -> None:
 
     if (kid.l0, kid.l1, kid.l2, kid.root_key_identifier) != (l0, l1, l2, rkid):
         rec.violation("key-id-position", f"key identifier names {(kid.l0, kid.l1, kid.l2)} not {(l0, l1, l2)}", wit)
-    rec.count("ref_kek_compared")
-    if kek_enc != want:
-        rec.violation("kek-enc-vs-reference", f"{alg}/{h}: new_kek KEK differs from the independent implementation", wit)
-        return
+    if want is not None:
+        rec.count("ref_kek_compared")
+        if kek_enc != want:
+            rec.violation("kek-enc-vs-reference", f"{alg}/{h}: new_kek KEK differs from the independent implementation", wit)
+            return
     try:
         kek_dec = env_dec.get_kek(kid)
     except Exception as e:
